@@ -97,11 +97,15 @@ Scan(line, st) ==
              IF ws = <<>> \/ (st.i + 1 <= Len(line) /\ line[st.i + 1] = BAR) THEN Error
              ELSE Scan(line, [nxt EXCEPT !.cmds = Append(st.cmds, ws), !.words = <<>>, !.cur = <<>>, !.have = FALSE])
            ELSE IF Meta(c) THEN Error
-           ELSE IF c = 61 /\ st.words = <<>> THEN Error        \* '=' in the command word: an assignment
+           ELSE IF c = 61 /\ st.words = <<>> /\ ~st.asg THEN Error   \* '=' in the command word: an assignment
            ELSE Scan(line, [nxt EXCEPT !.cur = Append(st.cur, c), !.have = TRUE])
 
 ShSplit(line) ==
-  Scan(line, [i |-> 1, mode |-> "u", cur |-> <<>>, have |-> FALSE, words |-> <<>>, cmds |-> <<>>, err |-> FALSE])
+  Scan(line, [i |-> 1, mode |-> "u", cur |-> <<>>, have |-> FALSE, words |-> <<>>, cmds |-> <<>>, err |-> FALSE, asg |-> FALSE])
+\* the same for a line that may begin with NAME=value assignments (a command shown with its environment settings):
+\* they come back as words, for the caller to tell apart
+ShSplitAssign(line) ==
+  Scan(line, [i |-> 1, mode |-> "u", cur |-> <<>>, have |-> FALSE, words |-> <<>>, cmds |-> <<>>, err |-> FALSE, asg |-> TRUE])
 
 RoundTrip(stages) == ShSplit(Render(stages)) = stages
 =============================================================================
